@@ -57,6 +57,22 @@ def decoder_keys():
                     out[cls.name] = sorted(keys)
     return out
 
+def setstate_guards():
+    """per class: does __setstate__ return before writing any slot when the object is already initialised?  (translator for the
+    `guarded` flag of Model/Codec.v pload; fail-closed: anything but the known shape is reported as unguarded)"""
+    tree = ast.parse(open(os.path.join(REPO, "src/measured/__init__.py")).read())
+    out = {}
+    for cls in tree.body:
+        if isinstance(cls, ast.ClassDef) and cls.name in ("Dimension", "Prefix", "Unit"):
+            out[cls.name] = False
+            for fn in cls.body:
+                if isinstance(fn, ast.FunctionDef) and fn.name == "__setstate__":
+                    body = [st for st in fn.body if not (isinstance(st, ast.Expr) and isinstance(st.value, ast.Constant))]
+                    first = body[0] if body else None
+                    out[cls.name] = (isinstance(first, ast.If) and ast.unparse(first.test) in ("getattr(self, '_initialized', False)", "self._initialized")
+                                     and len(first.body) == 1 and isinstance(first.body[0], ast.Return) and first.body[0].value is None and not first.orelse)
+    return out
+
 def mutate(rng, doc, table, names_in_use):
     """documents near the written ones: (label, doc)"""
     out = []
@@ -84,6 +100,9 @@ def run(c, rng, build, nmut):
     want = {"Dimension": ["exponents"], "Prefix": ["base", "exponent"], "Unit": ["dimension", "factors", "name", "prefix"]}
     c.oblige(f"translator: keys read by the __from_json__ methods are {want} (the model documents carry exactly these; 'symbol' and the "
              "names of dimensions and prefixes are read by no decoder)", dk == want, json.dumps(dk))
+    sg = setstate_guards()
+    c.oblige("translator: Dimension/Prefix/Unit.__setstate__ leave an initialised object alone (the `guarded = true` instance of pload, "
+             "C15_pickle_roundtrip / C15_stale_pickle_keeps_names)", all(sg.get(k) for k in ("Dimension", "Prefix", "Unit")), json.dumps(sg))
     r0 = impl("codec_worker.py", {"build": build, "decode": []})
     rows = r0["table"]
     # representable rows (exact prefixes); handles are positions among them
